@@ -123,7 +123,7 @@ def build_module(cfg='NsS', mem2reg=True):
     run(['llvm-link-14'] + bcs + ['-o', linked])
     if mem2reg:
         m2 = os.path.join(out, 'lib.m2r.bc')
-        run(['opt-14', '-passes=mem2reg', linked, '-o', m2])
+        run(['opt-14', '-passes=sroa', linked, '-o', m2])
         linked = m2
     facts = os.path.join(out, 'facts.json')
     with open(facts, 'w') as fo:
